@@ -1,11 +1,18 @@
 #!/bin/sh
 # Build the framework from files on disk only (offline).
-set -e
-cd "$(dirname "$0")"
+# The checks build what they need themselves (each one its own GfsProps.<id> and the driver);
+# this script only warms the caches, so a problem in one proof module must not stop the rest.
+cd "$(dirname "$0")" || exit 1
 export GOFLAGS=-mod=mod GOPROXY=off GOSUMDB=off GOTOOLCHAIN=local
 mkdir -p build evidence replays
-(cd tools/gofacts && go build -o ../../build/gofacts . && ../../build/gofacts /repo ../../lean/GfsGen/Facts.lean)
-(cd lean && lake build)
+(cd tools/gofacts && go build -o ../../build/gofacts . && ../../build/gofacts /repo ../../lean/GfsGen/Facts.lean ../../build/fingerprints.json) || exit 1
+if ! (cd lean && lake build); then
+  echo "setup: whole-project lake build failed; building the targets one by one" >&2
+  for i in 01 02 03 04 05 06 07 08 09 10 11 12 13 14 15 16 17 18 19 20; do
+    (cd lean && lake build GfsProps.C$i) || echo "setup: GfsProps.C$i does not build" >&2
+  done
+fi
+(cd lean && lake build gfsdriver) || exit 1
 cp /repo/go.sum harness/go.sum
-(cd harness && go build -tags verif -o ../build/gfsharness ./cmd/gfsharness)
+(cd harness && go build -tags verif -o ../build/gfsharness ./cmd/gfsharness) || exit 1
 echo setup-ok
